@@ -26,7 +26,7 @@ func init() {
 			c.ruleRequires("E1b.requires", requiresTable, 15)
 			c.ruleBookkeepingLocks("E1b.bookkeeping")
 			c.ruleRefreshExclusion()
-			c.rulePurity("E2d.pure", []string{"pkg/packet/bgp"}, 500)
+			c.rulePurity("E2d.pure", []string{"pkg/packet/bgp"}, 500, "BGPOpen")
 			c.ruleMacIndexHandles()
 			c.ruleActiveDestinations()
 			c.ruleIdentityDelete()
